@@ -170,6 +170,9 @@ def dispatch(stmts, ctx, top_level_skip=False, _path=None, _depth=0):
             continue
         if isinstance(st, ast.Pass):
             continue
+        if isinstance(st, ast.Assign) and len(st.targets) == 1 and isinstance(st.targets[0], ast.Name) and \
+                st.targets[0].id.startswith(('ret__h', 'tmp__h')) and isinstance(st.value, ast.Constant):
+            continue                               # bookkeeping of an inlined helper
         if isinstance(st, ast.For) and isinstance(st.target, ast.Name) and st.target.id.startswith('once__h'):
             # the one-iteration loop an inlined helper with early returns is spliced as
             sub = dispatch(st.body, ctx, top_level_skip, path, _depth + 1)
